@@ -56,7 +56,10 @@ pub fn gen_random(seed: u64, idx: u64) -> Plan {
     let mut nonce = 1u64;
     let mut conns = Vec::new();
     let plain = r.chance(1, 4);
-    let h2_conn = if r.chance(1, 4) { Some(r.usize_in(0, nconns - 1)) } else { None };
+    // one run in six goes through the HTTPS acceptor (concurrent TLS
+    // negotiations; the peer address travels with the negotiated stream)
+    let tls = r.chance(1, 6);
+    let h2_conn = if !tls && r.chance(1, 4) { Some(r.usize_in(0, nconns - 1)) } else { None };
     for i in 0..nconns {
         let mut c = blank_conn(6000 + i as u16);
         c.start_ms = r.range(0, 40);
@@ -149,6 +152,9 @@ pub fn gen_random(seed: u64, idx: u64) -> Plan {
                 nonce += 1;
             }
         }
+        if tls {
+            c.kind = ConnKind::Tls;
+        }
         conns.push(c);
     }
     Plan {
@@ -159,13 +165,13 @@ pub fn gen_random(seed: u64, idx: u64) -> Plan {
             body_limit: 65_536,
             api: if versioned { ApiKind::EchoVersioned } else { ApiKind::Echo },
             rt_override: None,
-            tls: false,
+            tls,
         },
         conns,
         shutdown: None,
         accept_errs: vec![],
         final_health: false,
-        note: format!("random idx={idx} versioned={versioned}"),
+        note: format!("random idx={idx} versioned={versioned} tls={tls}"),
     }
 }
 
@@ -209,6 +215,7 @@ impl Scenario for C09 {
             "multipart_checked",
             "overtaking_completions",
             "incomplete_body_checked",
+            "echo_over_tls_checked",
         ]
     }
 
@@ -427,6 +434,9 @@ pub fn check_c09(
         }
         let peer = peer_of(cp);
         let mut closed_after_error = false;
+        if cp.kind == ConnKind::Tls && !obs.finals.is_empty() {
+            probes.push("echo_over_tls_checked");
+        }
         for (k, rq) in cp.reqs.iter().enumerate() {
             if let Expect::Refuse { why } = &rq.expect {
                 probes.push("incomplete_body_checked");
